@@ -105,8 +105,9 @@ func (s *scanner) Length() uint {
 
 		if lex.Type() == lexeme.EndTop {
 			// Found character after the end of the schema and spaces. Ex: char
-			// "s" in "{} some text".
-			length = uint(lex.End()) - 1
+			// "s" in "{} some text". Everything before it belongs to the value
+			// or is blank (blanks are trimmed below).
+			length = uint(lex.End())
 			break
 		}
 		length = uint(lex.End()) + 1
